@@ -15,6 +15,8 @@ from .e2_eval import is_unknown
 from . import c19_sem as S
 from .c19_sem import Run, PyTuple, eq, un, israt, const_of, int_of, find_atoms, top_atoms, placed, ix_parts, unslice, is_sym
 
+from .c19_fix import r5_fixtime
+
 PSD = "pyyeti/psd.py"
 DSP = "pyyeti/dsp.py"
 
@@ -122,6 +124,86 @@ def _window(T):
             return None
         out.append((u[0] == "lt0", F.Rat(cf[1]), F.Rat(cf.get(0, F.Poly()))))
     return (pol, out) if len(out) == 2 else None
+
+
+def _scale_groups(v, var):
+    """v as a sum of parts that are homogeneous in the symbol `var` (v(c var) = sum c^d part_d)  ->  {d: part_d};  None when a degree cannot be read"""
+    if not israt(v):
+        return None
+
+    def atom_deg(a):
+        d = F.atom_desc(a)
+        if d[0] == "s":
+            return 1 if d[1] == var else 0
+        if d[0] == "fn":
+            args = [F.Rat(F._poly_from_key(k[1]), F._poly_from_key(k[2])) for k in d[2] if not isinstance(k, str)]
+        else:
+            args = [F.Rat(F._poly_from_key(d[1]))]
+        gs = [_scale_groups(x, var) for x in args]
+        if any(g is None or len(g) > 1 for g in gs):
+            return None
+        if d[0] == "fn" and d[1] == "abs":
+            return next(iter(gs[0]), 0)          # |c x| = c |x| for c > 0
+        return 0 if all(not g or 0 in g for g in gs) else None          # a function of scale-invariant arguments is scale-invariant
+
+    def poly_groups(p_):
+        out = {}
+        for m, c in p_.t.items():
+            deg = 0
+            for a, e in m:
+                da = atom_deg(a)
+                if da is None:
+                    return None
+                deg += da * e
+            out.setdefault(deg, {})[m] = c
+        return {k: F.Rat(F.Poly(t)) for k, t in out.items()}
+    gd = poly_groups(v.d)
+    gn = poly_groups(v.n)
+    if gd is None or gn is None or len(gd) != 1:
+        return None
+    dd = next(iter(gd))
+    return {k - dd: x / F.Rat(v.d) for k, x in gn.items()}
+
+
+def _selector_scaling(T, var):
+    """Does the truth of test T change when `var` (the PSD level) is scaled by c > 0?  ->  ("invariant", None) | ("level", limit truth for c -> 0) |
+    ("unknown", why).  Every sign leaf e (<|<=|==) 0 is split into parts homogeneous in var; a leaf with one part keeps its sign; a leaf with several
+    parts whose lowest-degree part is a non-zero constant tends to that constant's sign for c -> 0."""
+    mixed = []
+
+    def walk(t):
+        u = S.unfn(t)
+        if is_sym(t, "True") or is_sym(t, "False"):
+            return t
+        if u is None:
+            raise Unsupported(f"leaf {_short(t, 120)}")
+        nm, a = u
+        if nm == "not":
+            return S.b_not(walk(a[0]))
+        if nm in ("and", "or"):
+            return (S.b_and if nm == "and" else S.b_or)([walk(x) for x in a])
+        if nm in ("lt0", "le0", "eq0"):
+            g = _scale_groups(a[0], var)
+            if g is None:
+                raise Unsupported(f"degree of {_short(a[0], 120)} in the PSD level")
+            if len(g) <= 1:
+                return t
+            mixed.append(a[0])
+            low = g[min(g)]
+            c = const_of(low)
+            if c is None or c == 0:
+                raise Unsupported(f"the part of lowest degree of {_short(a[0], 120)} is not a constant")
+            return S.b_const({"lt0": c < 0, "le0": c <= 0, "eq0": False}[nm])
+        raise Unsupported(f"leaf {_short(t, 120)}")
+    try:
+        lim = walk(T)
+    except Unsupported as e:
+        return "unknown", str(e)
+    if not mixed:
+        return "invariant", None
+    if is_sym(lim, "True") or is_sym(lim, "False"):
+        return "level", (is_sym(lim, "True"), mixed)
+    return "unknown", "the test depends on the PSD level in some of its parts only"
 
 
 def r1_area(ctx):
@@ -269,6 +351,25 @@ def r1_area(ctx):
     ok = lim is not None and lim.equals(sp)
     _chk(ctx, ok, "area: the special-case formula p1 f1 log(f2/f1) is the s -> -1 limit of the general one", tnode,
          None if ok else {"limit": _short(lim) if lim is not None else "singular", "special": _short(sp)}, [gen, sp])
+    # homogeneity: area(c spec) = c area(spec) - both formulas are of degree 1 in the PSD values, so the test that selects between them must not change
+    # when all PSD values are scaled (an absolute tolerance on a quantity that scales with the data - isclose(f2 p2, f1 p1) - does)
+    kind, info = _selector_scaling(T, "p1")
+    msg = ("area: the test that selects the limit formula is a function of the log-log slope alone - it does not change when every PSD value is scaled by c > 0 "
+           "(area(c spec) = c area(spec))")
+    t_none = S.V(S.Shared(oracle=lambda v, ev: False)).truth(T)
+
+    def used(truth):
+        taken = incs[True] if t_all == truth else incs[False] if t_none == truth else None
+        if taken is None:
+            return "one formula is used for every segment"
+        return ("the s = -1 limit formula is used for every segment, whatever its slope" if taken is sp else "the general formula is used at s = -1 as well (0/0)")
+    if kind == "invariant":
+        ctx.ok(msg, tnode)
+    elif kind == "level":
+        ctx.fail(msg, tnode, {"test": _short(T), "not homogeneous in the PSD values": [_short(x) for x in info[1]],
+                              "consequence": f"for PSD values small enough the test is {info[0]} whatever the slope: " + used(info[0])})
+    else:
+        ctx.error(msg, tnode, {"test": _short(T), "why": info})
     if w is None or t_all is None:
         ctx.error("area: the selector is a two-sided window on the slope", tnode, _short(T))
     else:
@@ -714,7 +815,7 @@ def _rescale_regime(ctx, fn, shape):
          None if ok else {"interpolated at": [_short(x) for x in xs], "expected": [_short(want_lo), _short(want_hi)]}, xs)
     # where the results go: column i of a zero array, i the column of the curve, inside one loop over the columns
     bufs = []
-    trips = [R.E(ncol), R.E("len(np.transpose(c))", c=curve)] if curve is not None else [R.E(ncol)]
+    trips = [R.E(ncol), R.E("len(np.transpose(c))", c=curve), R.E("c.shape[1]", c=curve)] if curve is not None else [R.E(ncol)]
     for c in ip:
         loop = c.loops[-1] if c.loops else None
         if loop is None:
@@ -760,10 +861,11 @@ def _rescale_regime(ctx, fn, shape):
 
 
 RULES = [
-    ("C19-R1", r1_area, 8),
+    ("C19-R1", r1_area, 9),
     ("C19-R2", r2_interp, 4),
     ("C19-R3", r3_resample, 11),
     ("C19-R4", r4_rescale, 21),
+    ("C19-R5", r5_fixtime, 11),
 ]
 LEVEL = "other"
 EXPLANATION = ("Static, decided on values and roles (functions evaluated on symbols, c19_sem.py): psd.area's general formula is the exact integral of the log-log "
